@@ -106,6 +106,25 @@ func c03Small(rng *rand.Rand, id int, ep, temp string) []string {
 	return out
 }
 
+// ForceCompaction in the middle of a session: the writer is open (right after a write tick its buffer
+// is empty, or it still holds entries); the same chronicler goes on writing afterwards.
+func c03MidSession(rng *rand.Rand, id int) []string {
+	h := &c03Hist{rng: rng}
+	out := []string{fmt.Sprintf("case %d ep=force temp=none midsession", id)}
+	chron := c03ChronLine(rng, false)
+	out = append(out, chron, "live 1000000")
+	nk := 2 + rng.Intn(4)
+	for b := 0; b < 2+rng.Intn(3); b++ {
+		out = append(out, "w "+h.put(1+rng.Intn(nk))+","+h.put(1+rng.Intn(nk)), "sync")
+	}
+	if rng.Intn(2) == 0 {
+		out = append(out, "w "+h.put(1+rng.Intn(nk))) // buffered, not synced
+	}
+	out = append(out, "force")
+	out = append(out, "w "+h.put(1+rng.Intn(nk))+","+h.put(60), "sync", "w "+h.put(61), "close", chron, "load")
+	return out
+}
+
 // large history (≥ 100 entries): the inline triggers and the load self-heal
 func c03Large(rng *rand.Rand, id int, ep, temp string) []string {
 	h := &c03Hist{rng: rng}
@@ -189,6 +208,9 @@ func c03Gen(rng *rand.Rand, tier string, w *bufio.Writer) {
 	emit(c03TornMain(rand.New(rand.NewSource(17)), id, "force"))
 	for i := 0; i < 4; i++ {
 		emit(c03TornMain(rng, id, []string{"cli", "force"}[rng.Intn(2)]))
+	}
+	for i := 0; i < 4; i++ {
+		emit(c03MidSession(rng, id))
 	}
 	nSmall, nLarge := 14, 4
 	if tier == "thorough" {
